@@ -45,7 +45,7 @@ func (f *FeeQuotes) AddMinerWithDefault(minerName string) *FeeQuotes {
 	verifTrace("FeeQuotes.AddMinerWithDefault", "lock", "fqs.mu")
 	defer f.mu.Unlock()
 	defer verifTrace("FeeQuotes.AddMinerWithDefault", "unlock", "fqs.mu")
-	verifTrace("FeeQuotes.AddMinerWithDefault", "write", "quotes")
+	verifAccess("FeeQuotes.AddMinerWithDefault", "write", "quotes", &f.mu)
 	f.quotes[minerName] = NewFeeQuote()
 	return f
 }
@@ -57,7 +57,7 @@ func (f *FeeQuotes) AddMiner(minerName string, quote *FeeQuote) *FeeQuotes {
 	verifTrace("FeeQuotes.AddMiner", "lock", "fqs.mu")
 	defer f.mu.Unlock()
 	defer verifTrace("FeeQuotes.AddMiner", "unlock", "fqs.mu")
-	verifTrace("FeeQuotes.AddMiner", "write", "quotes")
+	verifAccess("FeeQuotes.AddMiner", "write", "quotes", &f.mu)
 	f.quotes[minerName] = quote
 	return f
 }
@@ -72,7 +72,7 @@ func (f *FeeQuotes) Quote(minerName string) (*FeeQuote, error) {
 	verifTrace("FeeQuotes.Quote", "rlock", "fqs.mu")
 	defer f.mu.RUnlock()
 	defer verifTrace("FeeQuotes.Quote", "runlock", "fqs.mu")
-	verifTrace("FeeQuotes.Quote", "read", "quotes")
+	verifAccess("FeeQuotes.Quote", "read", "quotes", &f.mu)
 	q, ok := f.quotes[minerName]
 	if !ok {
 		return nil, ErrMinerNoQuotes
@@ -91,7 +91,7 @@ func (f *FeeQuotes) Fee(minerName string, feeType FeeType) (*Fee, error) {
 	verifTrace("FeeQuotes.Fee", "rlock", "fqs.mu")
 	defer f.mu.RUnlock()
 	defer verifTrace("FeeQuotes.Fee", "runlock", "fqs.mu")
-	verifTrace("FeeQuotes.Fee", "read", "quotes")
+	verifAccess("FeeQuotes.Fee", "read", "quotes", &f.mu)
 	m := f.quotes[minerName]
 	if m == nil {
 		return nil, ErrMinerNoQuotes
@@ -106,7 +106,7 @@ func (f *FeeQuotes) UpdateMinerFees(minerName string, feeType FeeType, fee *Fee)
 	verifTrace("FeeQuotes.UpdateMinerFees", "lock", "fqs.mu")
 	defer f.mu.Unlock()
 	defer verifTrace("FeeQuotes.UpdateMinerFees", "unlock", "fqs.mu")
-	verifTrace("FeeQuotes.UpdateMinerFees", "read", "quotes")
+	verifAccess("FeeQuotes.UpdateMinerFees", "read", "quotes", &f.mu)
 	if minerName == "" || feeType == "" || fee == nil {
 		return nil, ErrEmptyValues
 	}
@@ -201,7 +201,7 @@ func (f *FeeQuote) Fee(t FeeType) (*Fee, error) {
 	verifTrace("FeeQuote.Fee", "rlock", "fq.mu")
 	defer f.mu.RUnlock()
 	defer verifTrace("FeeQuote.Fee", "runlock", "fq.mu")
-	verifTrace("FeeQuote.Fee", "read", "fees")
+	verifAccess("FeeQuote.Fee", "read", "fees", &f.mu)
 	fee, ok := f.fees[t]
 	if fee == nil || !ok {
 		return nil, ErrFeeTypeNotFound
@@ -216,7 +216,7 @@ func (f *FeeQuote) AddQuote(ft FeeType, fee *Fee) *FeeQuote {
 	verifTrace("FeeQuote.AddQuote", "lock", "fq.mu")
 	defer f.mu.Unlock()
 	defer verifTrace("FeeQuote.AddQuote", "unlock", "fq.mu")
-	verifTrace("FeeQuote.AddQuote", "write", "fees")
+	verifAccess("FeeQuote.AddQuote", "write", "fees", &f.mu)
 	f.fees[ft] = fee
 	return f
 }
@@ -227,7 +227,7 @@ func (f *FeeQuote) Expiry() time.Time {
 	verifTrace("FeeQuote.Expiry", "rlock", "fq.mu")
 	defer f.mu.RUnlock()
 	defer verifTrace("FeeQuote.Expiry", "runlock", "fq.mu")
-	verifTrace("FeeQuote.Expiry", "read", "expiryTime")
+	verifAccess("FeeQuote.Expiry", "read", "expiryTime", &f.mu)
 	return f.expiryTime
 }
 
@@ -239,7 +239,7 @@ func (f *FeeQuote) UpdateExpiry(exp time.Time) {
 	verifTrace("FeeQuote.UpdateExpiry", "lock", "fq.mu")
 	defer f.mu.Unlock()
 	defer verifTrace("FeeQuote.UpdateExpiry", "unlock", "fq.mu")
-	verifTrace("FeeQuote.UpdateExpiry", "write", "expiryTime")
+	verifAccess("FeeQuote.UpdateExpiry", "write", "expiryTime", &f.mu)
 	f.expiryTime = exp
 }
 
@@ -250,7 +250,7 @@ func (f *FeeQuote) Expired() bool {
 	verifTrace("FeeQuote.Expired", "lock", "fq.mu")
 	defer f.mu.Unlock()
 	defer verifTrace("FeeQuote.Expired", "unlock", "fq.mu")
-	verifTrace("FeeQuote.Expired", "read", "expiryTime")
+	verifAccess("FeeQuote.Expired", "read", "expiryTime", &f.mu)
 	return f.expiryTime.Before(time.Now().UTC())
 }
 
@@ -283,7 +283,7 @@ func (f *FeeQuote) MarshalJSON() ([]byte, error) {
 	verifTrace("FeeQuote.MarshalJSON", "rlock", "fq.mu")
 	defer f.mu.RUnlock()
 	defer verifTrace("FeeQuote.MarshalJSON", "runlock", "fq.mu")
-	verifTrace("FeeQuote.MarshalJSON", "read", "fees")
+	verifAccess("FeeQuote.MarshalJSON", "read", "fees", &f.mu)
 	return json.Marshal(f.fees)
 }
 
@@ -305,7 +305,7 @@ func (f *FeeQuote) UnmarshalJSON(body []byte) error {
 	verifTrace("FeeQuote.UnmarshalJSON", "lock", "fq.mu")
 	defer f.mu.Unlock()
 	defer verifTrace("FeeQuote.UnmarshalJSON", "unlock", "fq.mu")
-	verifTrace("FeeQuote.UnmarshalJSON", "write", "fees")
+	verifAccess("FeeQuote.UnmarshalJSON", "write", "fees", &f.mu)
 	f.fees = fees
 	return nil
 }
